@@ -168,6 +168,9 @@ def judge(case, out):
     return fails
 
 
+SEQ_PROFILES = [(1, {"kinds": {"chan": 6, "ping": 1, "comp": 1, "timer": 0.5}, "n_setup": (2, 4), "script_prob": 0.9, "share_fd_prob": 0.0, "err_ret_prob": 0.0})]
+
+
 def main(tier, seed):
     chk = vlib.Check("C04", tier, seed)
     st = vlib.standard_front(chk)
@@ -225,7 +228,16 @@ def main(tier, seed):
             why.append("runner: %s" % mlog[:300])
         chk.violation("broken", "C04 is no longer shown to hold.\n" + "\n".join(why) +
                       "\nthe oracle judged all %d schedules of this run on real threads: no failing input found\n%s" % (len(cases), diffs[0][0] if diffs else ""), nofail=True)
-    return chk.finish()
+    # ---- second stage: single-threaded histories on the sequential loop model (bounds up to 2048, queues beyond the 1024 batch
+    # limit in the corpus scenarios S_C04b_*), judged by the C04 rules of py/oracles.py
+    import oracles
+    import p_seqprops
+    import seqcheck
+    return seqcheck.run_seq_check("C04", tier, seed, SEQ_PROFILES, oracles.oracle_for(["C04"]), 400, 10000,
+                                  ["second stage: sequential scenarios rich in channels (send/try_send, sender clones and drops, also from callbacks); the corpus "
+                                   "holds queues of 1025 and 1500 messages on sync_channel(1025 / 2048)"],
+                                  known_classifier=p_seqprops.classify, stage_of=(chk, st))
+
 
 
 def f9_reproduces():
@@ -238,6 +250,10 @@ def f9_reproduces():
 
 
 def replay(path):
+    if "=== " in open(path).read():
+        import oracles
+        import seqcheck
+        return seqcheck.replay("C04", path, oracles.oracle_for(["C04"]))
     cases = [l.strip() for l in open(path) if l.count("|") == 2 and len(l.split("|")[0].split()) == 2]
     vlib.build_harness()
     vlib.build_model()
